@@ -18,6 +18,7 @@ import (
 	"runtime"
 	"runtime/debug"
 	"sort"
+	"strconv"
 	"strings"
 	"sync"
 	"sync/atomic"
@@ -91,6 +92,7 @@ type Ctx struct {
 	Res    ShardResult
 
 	idx       int64
+	scale     int          // VMON_SCALE: divisor of tier-dependent sizes (slow build variants)
 	caseSeq   atomic.Int64 // bumped at the start of every case: read by the livelock watch
 	distinct  map[uint64]struct{}
 	maxSample int
@@ -113,6 +115,7 @@ func NewCtx(p *Prop, tier string, seed uint64, shard int) *Ctx {
 		paranoid: os.Getenv("VMON_PARANOID"),
 		noiseRng: gen.New(seed, fmt.Sprintf("%s/noise%d", p.ID, shard)),
 		Scratch:  map[string]any{},
+		scale:    func() int { n, _ := strconv.Atoi(os.Getenv("VMON_SCALE")); return n }(),
 	}
 }
 
@@ -121,11 +124,17 @@ func (c *Ctx) Thorough() bool { return c.Tier == "thorough" }
 
 // N picks the tier-dependent size.
 func (c *Ctx) N(quick, thorough int) int {
+	n := quick
 	if c.Thorough() {
-		return thorough
+		n = thorough
 	}
 
-	return quick
+	// a child running a much slower build of the monitors (the race detector's) takes a fraction of every tier-sized list
+	if c.scale > 1 && n > c.scale {
+		n /= c.scale
+	}
+
+	return n
 }
 
 // SharedRng returns a stream that is identical in every shard (for building shared pools and structured lists).
